@@ -750,6 +750,13 @@ class Ontology(OntologyElement):
             if event_type.get_parent() is None:
                 continue
 
+            try:
+                event_type.get_parent().get_property_map()
+            except ValueError:
+                raise EDXMLOntologyValidationError(
+                    'Event type %s contains a parent definition which has an invalid property map.' % event_type_name
+                )
+
             # Check if all unique parent properties are present
             # in the property map
             parent_event_type = self.get_event_type(event_type.get_parent().get_event_type_name())
